@@ -108,7 +108,7 @@ impl FromStr for Card {
     type Err = ParseCardError;
 
     fn from_str(v: &str) -> Result<Self, Self::Err> {
-        if v.len() == 2 {
+        if v.len() == 2 && v.is_ascii() {
             if let (Ok(rank), Ok(suit)) = (Rank::from_str(&v[0..1]), Suit::from_str(&v[1..2])) {
                 return Ok(Card(rank, suit));
             };
